@@ -454,7 +454,10 @@ class HTTPConnection(_HTTPConnection):
                 if isinstance(chunk, str):
                     chunk = chunk.encode("utf-8")
                 if chunked:
-                    self.send(b"%x\r\n%b\r\n" % (len(chunk), chunk))
+                    # len() of a buffer counts items, the chunk size counts bytes.
+                    self.send(
+                        b"%x\r\n%b\r\n" % (memoryview(chunk).nbytes, chunk)
+                    )
                 else:
                     self.send(chunk)
 
